@@ -1,0 +1,109 @@
+//go:build verif
+// +build verif
+
+package account
+
+import (
+	"fmt"
+	"sort"
+	"strings"
+
+	"github.com/LemoFoundationLtd/lemochain-core/chain/types"
+	"github.com/LemoFoundationLtd/lemochain-core/common"
+)
+
+// This file is compiled only with the "verif" build tag. It exposes read-only dumps of private
+// state to the verification harnesses in /verif; it changes no behaviour.
+
+func verifDumpStorage(name string, c *StorageCache, sb *strings.Builder) {
+	dump := func(tag string, s Storage) {
+		keys := make([]string, 0, len(s))
+		for k, v := range s {
+			keys = append(keys, fmt.Sprintf("%x=%x", k[:], v))
+		}
+		sort.Strings(keys)
+		fmt.Fprintf(sb, " %s.%s{%s}", name, tag, strings.Join(keys, ","))
+	}
+	dump("cached", c.cached)
+	dump("dirty", c.dirty)
+}
+
+// VerifDumpRaw renders every field of the raw account: consensus data, code, flags, version
+// counters. withCaches adds the four storage caches (implementation state that futures depend on).
+func VerifDumpRaw(am *Manager, addr common.Address, withCaches bool) string {
+	sa, ok := am.accountCache[addr]
+	if !ok {
+		return "(not loaded)"
+	}
+	a := sa.rawAccount
+	var sb strings.Builder
+	d := a.data
+	fmt.Fprintf(&sb, "addr=%x bal=%s codeHash=%x sroot=%x acroot=%x airoot=%x eqroot=%x voteFor=%x votes=%s",
+		d.Address[:], d.Balance, d.CodeHash[:], d.StorageRoot[:], d.AssetCodeRoot[:], d.AssetIdRoot[:], d.EquityRoot[:], d.VoteFor[:], d.Candidate.Votes)
+	pk := make([]string, 0)
+	for k, v := range d.Candidate.Profile {
+		pk = append(pk, k+"="+v)
+	}
+	sort.Strings(pk)
+	fmt.Fprintf(&sb, " profile{%s} signers%s", strings.Join(pk, ","), d.Signers.String())
+	rk := make([]string, 0)
+	for k, v := range d.NewestRecords {
+		rk = append(rk, fmt.Sprintf("%02d:%d@%d", k, v.Version, v.Height))
+	}
+	sort.Strings(rk)
+	fmt.Fprintf(&sb, " records{%s}", strings.Join(rk, ","))
+	nk := make([]string, 0)
+	for k, v := range a.newestRecords {
+		nk = append(nk, fmt.Sprintf("%02d:%d", k, v))
+	}
+	sort.Strings(nk)
+	fmt.Fprintf(&sb, " newest{%s} suicided=%v code=%x codeDirty=%v events=%d", strings.Join(nk, ","), a.suicided, []byte(a.code), a.codeIsDirty, len(a.events))
+	for _, e := range a.events {
+		fmt.Fprintf(&sb, " ev(%x,%x,%x)", e.Address[:], e.Topics, e.Data)
+	}
+	if withCaches {
+		verifDumpStorage("storage", a.storage, &sb)
+		verifDumpStorage("assetCode", a.assetCode, &sb)
+		verifDumpStorage("assetId", a.assetId, &sb)
+		verifDumpStorage("equity", a.equity, &sb)
+	}
+	return sb.String()
+}
+
+// VerifLoadedAddresses lists the accounts currently held in the manager's cache, sorted.
+func VerifLoadedAddresses(am *Manager) []common.Address {
+	l := make(common.AddressSlice, 0, len(am.accountCache))
+	for a := range am.accountCache {
+		l = append(l, a)
+	}
+	sort.Sort(l)
+	return l
+}
+
+// VerifJournal renders the journal (type, address, version) and the revision stack.
+func VerifJournal(am *Manager) string {
+	var sb strings.Builder
+	for _, l := range am.processor.changeLogs {
+		fmt.Fprintf(&sb, "(%d,%x,%d)", l.LogType, l.Address[len(l.Address)-2:], l.Version)
+	}
+	sb.WriteString("|")
+	for _, r := range am.processor.revisions {
+		fmt.Fprintf(&sb, "(%d@%d)", r.id, r.journalIndex)
+	}
+	fmt.Fprintf(&sb, "|next=%d", am.processor.nextRevisionId)
+	return sb.String()
+}
+
+// VerifJournalLen is the number of change logs currently in the journal.
+func VerifJournalLen(am *Manager) int { return len(am.processor.changeLogs) }
+
+// VerifRevisions returns the ids of the live revisions, oldest first.
+func VerifRevisions(am *Manager) []int {
+	ids := make([]int, 0, len(am.processor.revisions))
+	for _, r := range am.processor.revisions {
+		ids = append(ids, r.id)
+	}
+	return ids
+}
+
+var _ = types.ChangeLogType(0)
